@@ -142,11 +142,30 @@ def build_harness(profile="dev"):
         if not os.path.exists(dst) or "name = \"dverif\"" not in open(dst).read():
             open(dst, "w").write(src)
     cmd = ["cargo", "build", "--offline"] + (["--release"] if profile == "release" else [])
-    p = run_cmd(cmd, cwd=HARNESS, check=False, timeout=3000)
+    env = ENV
+    hdir, tdir = HARNESS, TARGET
+    if REPO != "/repo":
+        # development aid: run the checks against another checkout (VERIF_REPO), e.g. a clean worktree while
+        # /repo itself carries a seeded change.  Registered commands never set VERIF_REPO.
+        hdir = os.path.join(CACHE, "harness-alt")
+        tdir = TARGET + "-alt"
+        shutil.rmtree(hdir, ignore_errors=True)
+        shutil.copytree(HARNESS, hdir, ignore=shutil.ignore_patterns("target"))
+        ct = open(os.path.join(hdir, "Cargo.toml")).read().replace('path = "/repo"', f'path = "{REPO}"')
+        open(os.path.join(hdir, "Cargo.toml"), "w").write(ct)
+        env = dict(ENV, CARGO_TARGET_DIR=tdir)
+    if os.environ.get("VERIF_COVERAGE"):
+        # diagnostic only (tools/coverage.py): which lines of /repo/src does the correspondence exercise?
+        cmd = ["cargo", "+nightly", "build", "--offline"]
+        env = dict(ENV, RUSTFLAGS="-C instrument-coverage", CARGO_TARGET_DIR=TARGET + "-cov")
+        profile = "cov"
+    p = run_cmd(cmd, cwd=hdir, check=False, timeout=3000, env=env)
     if p.returncode != 0:
         raise MachineryError("harness does not build against the current tree "
                              "(a public signature it uses changed?):\n" + p.stdout[-3000:])
-    exe = os.path.join(TARGET, "release" if profile == "release" else "debug", "dverif")
+    exe = os.path.join(tdir, "release" if profile == "release" else "debug", "dverif")
+    if profile == "cov":
+        exe = os.path.join(TARGET + "-cov", "debug", "dverif")
     _harness_built[profile] = exe
     return exe
 
@@ -180,6 +199,9 @@ def run_batch(exe_args, lines, timeout=1200, unlimited_stack=False, env=None):
         return out, len(out), "timeout"
 
 
+CRASH_BUDGET = 8      # worker deaths (crash, abort, hang) tolerated per batch before the rest is skipped
+
+
 def run_sharded(exe_args, prelude, cases, shards=None, timeout=1200, unlimited_stack=False, env=None):
     """Runs cases over several processes (each gets `prelude` first).  Returns the output line per
     case; a case that killed its worker yields 'CRASH <why>' and the shard resumes after it."""
@@ -190,11 +212,17 @@ def run_sharded(exe_args, prelude, cases, shards=None, timeout=1200, unlimited_s
     shards = shards or min(NPROC, max(1, n // 200))
     bounds = [(i * n // shards, (i + 1) * n // shards) for i in range(shards)]
     results = [None] * n
+    crashes = [0]
 
     def work(b):
         lo, hi = b
         pos = lo
         while pos < hi:
+            if crashes[0] >= CRASH_BUDGET:
+                # enough workers have died: the remaining cases are not run (judges ignore SKIP lines)
+                for k in range(pos, hi):
+                    results[k] = "SKIP crash budget exhausted"
+                return True
             lines = prelude + cases[pos:hi]
             out, crashed, why = run_batch(exe_args, lines, timeout=timeout, unlimited_stack=unlimited_stack, env=env)
             body = out[len(prelude):]
@@ -207,6 +235,9 @@ def run_sharded(exe_args, prelude, cases, shards=None, timeout=1200, unlimited_s
                 if idx >= hi:
                     pos = hi
                 else:
+                    crashes[0] += 1
+                    if "exit=97" in why:
+                        why = "HANG the case ran longer than the per-case wall-clock limit (harness watchdog) " + why
                     results[idx] = "CRASH " + why.replace("\n", " ")
                     pos = idx + 1
         return True
@@ -282,7 +313,7 @@ def parse_assumptions(output):
     return blocks
 
 
-def check_proofs(pid):
+def check_proofs(pid, tier="quick"):
     """Builds Properties/<pid>.v (and <pid>f.v, the file allowed to depend on the named standard-library
     axioms, when it exists) from source and audits them.
     Returns dict(obligations, discharged, theorems, axioms, problems)."""
@@ -335,6 +366,29 @@ def check_proofs(pid):
             if not b <= allowed:
                 res["problems"].append(f"{fname}: axioms outside the allow-list: " + ", ".join(sorted(b - allowed)))
     res["axioms"] = sorted(allax)
+    if tier == "thorough" and not res["problems"]:
+        # independent re-check of the compiled files and everything they depend on
+        mods = [f"DV.Properties.{f[:-2]}" for f in files]
+        p = run_cmd(["timeout", "2400", "coqchk", "-silent", "-o", "-Q", "theories", "DV"] + mods, cwd=COQ, check=False, timeout=2500)
+        out = p.stdout
+        res["coqchk"] = "ok" if p.returncode == 0 else "failed"
+        if p.returncode != 0:
+            res["problems"].append("coqchk rejects the compiled development: " + out[-800:])
+        else:
+            m = re.search(r"\* Axioms:(.*?)\n\s*\n\* Constants/Inductives relying on type-in-type:(.*?)\n\s*\n\* Constants/Inductives relying on unsafe \(co\)fixpoints:(.*?)\n\s*\n\* Inductives whose positivity is assumed:(.*?)\n", out, flags=re.S)
+            if not m:
+                res["problems"].append("coqchk summary not understood: " + out[-400:])
+            else:
+                ax = [x.strip() for x in m.group(1).split("\n") if x.strip() and x.strip() != "<none>"]
+                res["coqchk_axioms"] = ax
+                allowed_any = any(f.endswith("f.v") for f in files)
+                for a in ax:
+                    base = a.split()[0]
+                    if not (allowed_any and any(base.endswith(x.split(".")[-1]) or x in base for x in ALLOWED_AXIOMS)):
+                        res["problems"].append("coqchk reports an axiom outside the allow-list: " + a)
+                for k, g in enumerate(m.groups()[1:]):
+                    if g.strip() != "<none>":
+                        res["problems"].append("coqchk reports relaxed kernel checks: " + g.strip()[:200])
     res["discharged"] = res["obligations"] if not res["problems"] else 0
     return res
 
@@ -402,10 +456,20 @@ class Check:
         if len(self.samples) < limit:
             self.samples.append(obj)
 
+    @staticmethod
+    def _skipped(replay):
+        return any(isinstance(v, str) and v.startswith("SKIP crash budget") for v in replay.values())
+
     def violation(self, what, replay):
+        if self._skipped(replay):
+            self.count("skipped-after-crash-budget")
+            return
         self.violations.append((what, replay))
 
     def corr_break(self, what, replay):
+        if self._skipped(replay):
+            self.count("skipped-after-crash-budget")
+            return
         self.corr_breaks.append((what, replay))
 
     def known(self, fid):
@@ -466,5 +530,13 @@ class Check:
 
     def _write_replay(self, tag, obj):
         p = os.path.join(REPLAYS, f"{self.pid}-{tag}.json")
+        obj = dict(obj, seed=self.seed, tier=self.tier)
+        eng = getattr(self, "engine", None)
+        if eng is not None and "case" in obj:
+            # everything needed to run the case again: dictionaries and the measured nesting limit
+            obj["prelude"] = list(eng.prelude)
+        if isinstance(obj.get("case"), str) and len(obj["case"]) > 8_000_000:
+            obj["case_truncated"] = True
+            obj["case"] = obj["case"][:8_000_000]
         json.dump(obj, open(p, "w"), indent=1)
         return p
